@@ -356,6 +356,11 @@ pub fn run_case(case: &Case) -> (Vec<Violation>, Guards) {
 }
 
 pub fn replay(v: &serde_json::Value) -> Vec<Violation> {
+    if v["check"] == "defaults" {
+        let a = format!("{:?}", flute::sender::TransferConfig::builder().build());
+        let b = format!("{:?}", flute::sender::TransferConfig::default());
+        return if a != b { vec![Violation { key: "C01/transfer-config-builder-default-differs".into(), what: format!("{} vs {}", a, b), case: v.clone() }] } else { vec![] };
+    }
     let case: Case = serde_json::from_value(v["case"].clone()).expect("case");
     run_case(&case).0
 }
@@ -714,6 +719,15 @@ fn mixed_grid(thorough: bool) -> Vec<Case> {
 
 pub fn run(thorough: bool) -> i32 {
     let mut rep = Report::new("C01", "exploration", if thorough { "thorough" } else { "quick" });
+    // the two ways of obtaining a default TransferConfig (typed builder, Default) must agree: the harness
+    // fills the struct literally, applications mostly use the builder
+    {
+        let a = format!("{:?}", flute::sender::TransferConfig::builder().build());
+        let b = format!("{:?}", flute::sender::TransferConfig::default());
+        if a != b {
+            rep.add(Violation { key: "C01/transfer-config-builder-default-differs".into(), what: format!("TransferConfig::builder().build() = {} but TransferConfig::default() = {}", a, b), case: json!({"check": "defaults", "case": {}}) });
+        }
+    }
     let mut cases = core_grid(thorough);
     let ncore = cases.len();
     cases.extend(session_grid(thorough));
